@@ -241,13 +241,14 @@ def run(facts, rep, ctx):
                 if not (r[0] == "call" and r[1] in FRESH_STRING):
                     recv_ok = False
                 ct = const_text(arg)
-                if ct is not None:
+                if ct is not None and not (ct == "" and i in (0, len(ap) - 1) and len(ap) > 1):
                     texts.append((i, ct))
                 else:
-                    k, h = split_component(arg)
+                    k, h = split_component(arg) if ct is None else (None, None)
                     if k is None:
                         # the split written inline / in an expanded helper: decide from the component's origin
-                        o = direct_component(arg)
+                        # (a literal "" in the first/last position is the empty half of the split)
+                        o = direct_component(arg) if ct is None else "empty"
                         em = parent_empty(pp)
                         if o is None:
                             shape_bad = "appends %s, which is neither a constant nor a component of the split path" % fmt(arg)[:160]
